@@ -262,6 +262,7 @@ func runC19(c *Ctx) {
 	c19Scoped(c)
 	c19V1V2(c)
 	c19NonInterference(c)
+	c19ExplicitDefault(c)
 }
 
 // ---- (a) Flags methods on arbitrary words vs the model
@@ -639,21 +640,33 @@ func c19Val(r *rand.Rand) any {
 	if r.IntN(2) == 0 {
 		t.I = map[int]string{2: "b"}
 	}
-	switch r.IntN(4) {
+	switch r.IntN(8) {
 	case 0:
 		t.J = 1.5
 	case 1:
 		t.J = []any{"x", nil}
 	case 2:
 		t.J = map[string]any{"q": strs[r.IntN(len(strs))]}
+	case 3:
+		t.J = []any(nil) // nil containers held in an interface take the specialised `any` paths
+	case 4:
+		t.J = map[string]any(nil)
+	case 5:
+		t.J = []any{[]any(nil), map[string]any(nil), []int(nil), map[string]int(nil)}
+	case 6:
+		t.J = map[string]any{"s": []any{[]any(nil), map[string]any(nil)}} // single entry: order-free
 	}
-	switch r.IntN(4) {
+	switch r.IntN(6) {
 	case 0:
 		return t
 	case 1:
 		return &t
 	case 2:
 		return []c19T{t}
+	case 3:
+		return []any{t.J, []any(nil), map[string]any(nil)}
+	case 4:
+		return map[string]any{"j": t.J}
 	default:
 		return map[string]any{"t": t.B}
 	}
@@ -779,5 +792,61 @@ func c19NonInterference(c *Ctx) {
 			c.Violate("noninterf-unmarshal", fmt.Sprintf("marshalOnly[%d]", k2), text, map[string]any{"u1": fmt.Sprint(u1), "u2": fmt.Sprint(u2)})
 		}
 		c.Case(fmt.Sprintf("ni:%d:%d:%s", k, k2, text), true)
+	}
+}
+
+// ---- (i) an option explicitly set to its default value behaves like the option being absent, and
+// X(true) followed by X(false) like X(false): the behavioural side of "last setter wins".
+// SpaceAfterColon/SpaceAfterComma are excluded: under Multiline an explicit false is documented to differ from absent.
+func c19ExplicitDefault(c *Ctx) {
+	n := c.N(4000, 300000)
+	var ctors []boolCtor
+	for _, bc := range boolCtors {
+		switch bc.name {
+		case "SpaceAfterColon", "SpaceAfterComma", "ExperimentalSupportFormatTag", "Deterministic":
+			continue
+		}
+		ctors = append(ctors, bc)
+	}
+	for i := 0; i < n; i++ {
+		v := c19Val(c.Rng)
+		bc := ctors[c.Rng.IntN(len(ctors))]
+		base := []json.Options{json.Deterministic(true)}
+		variants := [][]json.Options{
+			append(base[:len(base):len(base)], bc.f(false)),
+			append(base[:len(base):len(base)], bc.f(true), bc.f(false)),
+			append(append([]json.Options{bc.f(true)}, base...), json.DefaultOptionsV2(), json.Deterministic(true)),
+			append(base[:len(base):len(base)], json.JoinOptions(bc.f(true), bc.f(false))),
+		}
+		isV1 := false
+		for _, n := range v1Defaulted {
+			isV1 = isV1 || n == bc.name
+		}
+		if !isV1 { // DefaultOptionsV2 only cancels the v1 flags
+			variants = append(variants[:2:2], variants[3])
+		}
+		b0, e0 := json.Marshal(v, base...)
+		for vi, opts := range variants {
+			b1, e1 := json.Marshal(v, opts...)
+			if (e0 == nil) != (e1 == nil) || (e0 == nil && !bytes.Equal(b0, b1)) {
+				c.Violate("explicit-default-marshal", bc.name, nil, map[string]any{"variant": vi, "value": fmt.Sprintf("%#v", v), "absent": string(b0), "explicit": string(b1), "e0": fmt.Sprint(e0), "e1": fmt.Sprint(e1)})
+			}
+		}
+		if e0 == nil {
+			text := b0
+			if c.Rng.IntN(5) == 0 && len(text) > 2 {
+				text = text[:c.Rng.IntN(len(text))]
+			}
+			p0 := reflect.New(reflect.TypeOf(v))
+			u0 := json.Unmarshal(text, p0.Interface(), base...)
+			for vi, opts := range variants {
+				p1 := reflect.New(reflect.TypeOf(v))
+				u1 := json.Unmarshal(text, p1.Interface(), opts...)
+				if (u0 == nil) != (u1 == nil) || !reflect.DeepEqual(p0.Elem().Interface(), p1.Elem().Interface()) {
+					c.Violate("explicit-default-unmarshal", bc.name, text, map[string]any{"variant": vi, "u0": fmt.Sprint(u0), "u1": fmt.Sprint(u1)})
+				}
+			}
+		}
+		c.Case("xd:"+bc.name+":"+string(b0), true)
 	}
 }
